@@ -27,10 +27,10 @@ if [ -z "$SEED_SKIP_CONFIRM" ]; then
 fi
 unset CARGO_TARGET_DIR
 cd /verif
-VERIF_REPO="$wt" VERIF_ALT_EVIDENCE="/tmp/gvh-alt-evidence-$id" ./check "$id" --tier "$tier" >"$dir/check_$tier.log" 2>&1
+VERIF_REPO="$wt" VERIF_ALT_EVIDENCE="/tmp/gvhalt-evidence-$id" ./check "$id" --tier "$tier" >"$dir/check_$tier.log" 2>&1
 rc=$?
 grep -E "^VIOLATION|^  [a-z]|KNOWN-FINDING|TOOL-ERROR" "$dir/check_$tier.log" | head -8 | cut -c1-300
 echo "SEED $id $dir: tests=$tests demo_with=$dw demo_without=$dwo check=$rc"
 git -C /repo worktree remove --force "$wt"
-h=$(python3 -c "import hashlib,sys;print(hashlib.sha1(sys.argv[1].encode()).hexdigest()[:10])" "$wt"); rm -rf "/tmp/gvh-alt-$h" "/tmp/gvh-alt-evidence-$id" 2>/dev/null
+h=$(python3 -c "import hashlib,sys;print(hashlib.sha1(sys.argv[1].encode()).hexdigest()[:10])" "$wt"); rm -rf "/tmp/gvhalt-$h" "/tmp/gvhalt-evidence-$id" 2>/dev/null
 exit 0
